@@ -18,15 +18,21 @@ from checks import C02
 PID = 'C11'
 
 
-def h_region(sf, R, C):
+def h_region(sf, R, C, pattern=None):
     def h(c):
         im = I.make_image(R, C)
         flood, seed = real('flood'), real('seed')
         c.assume(flood.e > 0)
         c.assume(seed.e >= flood.e)
+        if pattern is not None:
+            # a fixed detection pattern (which pixels are above the clips), everything else symbolic: islands that share a bounding box
+            for r in range(R):
+                for cc in range(C):
+                    v = im[r, cc]
+                    c.assume(v.e >= seed.e if (r, cc) in pattern else z3.And(v.e >= 0, v.e < flood.e))
         bkg = real_np.zeros((R, C))
         rms = real_np.ones((R, C))
-        tag = 'find_islands+region[%dx%d]' % (R, C)
+        tag = 'find_islands+region[%dx%d%s]' % (R, C, ', L-shaped island with another island in its box' if pattern is not None else '')
         reg, wcs = I.UFRegion(), I.UFWcs()
         try:
             isl_u = sf.find_islands(im, bkg, rms, seed_clip=seed, flood_clip=flood)
@@ -124,14 +130,17 @@ def run(rep):
     thorough = rep.tier == 'thorough'
     grids = [(1, 2), (2, 2), (2, 3), (3, 2), (1, 4)] + ([(3, 3), (2, 4)] if thorough else [])
     rep.kernel('K-region-filter', functions=[I.F + ':find_islands'],
-               bounds='grids %s (non-square, elongated, L-shaped and box-sharing islands all occur); all pixel values and thresholds symbolic; ANY pixel->sky map and ANY region (uninterpreted functions)' % grids,
+               bounds='grids %s plus, in the quick tier, the four 3x3 patterns of an L-shaped island with a second island inside its bounding box (non-square, elongated, L-shaped and box-sharing islands all occur); all pixel values and thresholds symbolic; ANY pixel->sky map and ANY region (uninterpreted functions)' % grids,
                stubs=['WCS -> uninterpreted functions Wra/Wdec on 0-based pixel (x,y), origin o means W_0(p-o)', 'Region.sky_within -> uninterpreted predicate Inside(ra,dec)',
                       'scipy label on the path-concrete mask'],
                assumes=['oracle: island kept iff some OWN pixel (row r, col c) has Inside(W_fits(x=c+1, y=r+1))'],
                outside=['wcslib and HEALPix themselves (real in the replay)', 'fitted values: fitting is per island and reads nothing of the region (syntactic scan below)'])
-    results = core.explore_many([(h_region(sf, R, C), dict(wall_s=900)) for R, C in grids], workers=16)
+    L0 = {(0, 0), (1, 0), (2, 0), (2, 1), (2, 2), (0, 2)}
+    patterns = [L0, {(cc, r) for r, cc in L0}, {(2 - r, cc) for r, cc in L0}, {(r, 2 - cc) for r, cc in L0}]
+    jobs = [(R, C, None) for R, C in grids] + ([(3, 3, pt) for pt in patterns] if not thorough else [])
+    results = core.explore_many([(h_region(sf, R, C, pt), dict(wall_s=900)) for R, C, pt in jobs], workers=16)
     nrep = {}
-    for (R, C), (st, res) in zip(grids, results):
+    for (R, C, pt), (st, res) in zip(jobs, results):
         rep.stats(st)
         shown = False
         for r in res:
